@@ -878,6 +878,26 @@ pub fn main_c05(a: Args) -> i32 {
                     nfail += 1;
                     out.line("specfail.txt", &format!("{} C05 `copia patch` exit {:?} disagrees with the async engine (ok={})", id - 1, code, lib_ok));
                 }
+                // the same command once more over whatever the first run left at the output path (a retry by the user or by
+                // automation): the verdict and the guarantee are those of the first run
+                if outb.is_some() {
+                    let o2 = std::process::Command::new("bash")
+                        .arg("-c")
+                        .arg(format!("ulimit -v 6000000; exec timeout 20 {} patch basis d.delta -o out", c))
+                        .current_dir(&d)
+                        .output()
+                        .unwrap();
+                    out.count("cli_patch_reruns");
+                    let code2 = o2.status.code();
+                    let outb2 = std::fs::read(format!("{}/out", d)).ok();
+                    if code2 == Some(0) && !outb2.as_ref().map(|b| StrongHash::compute(b) == h.delta.checksum).unwrap_or(false) {
+                        nfail += 1;
+                        out.line("specfail.txt", &format!("{} C05 `copia patch` run a second time over the output of the first run: exit 0 but the output does not hash to delta.checksum (first run: exit {:?})", id - 1, code));
+                    } else if code2 != code && (code == Some(0) || code == Some(1)) {
+                        nfail += 1;
+                        out.line("specfail.txt", &format!("{} C05 `copia patch` run a second time gives exit {:?}, the first run gave {:?}", id - 1, code2, code));
+                    }
+                }
                 let _ = std::fs::remove_dir_all(&d);
             }
         }
